@@ -317,12 +317,27 @@ func runSub(build, tmp string, s plan.Sub, tier string, seed int64) *subResult {
 				cmd.Stderr = &stderr
 				cmd.Stdout = io.Discard
 				if s.Mode == "race" {
-					cmd.Env = append(os.Environ(), "GORACE=halt_on_error=0 log_path="+out+".race")
+					cmd.Env = append(os.Environ(), "GORACE=halt_on_error=0 exitcode=0 log_path="+out+".race")
 				}
 				timer := time.AfterFunc(time.Duration(budget+120)*time.Second, func() { cmd.Process.Kill() })
 				err := cmd.Run()
 				timer.Stop()
 				b, rerr := os.ReadFile(out)
+				if s.Mode == "race" {
+					if logs, _ := filepath.Glob(out + ".race.*"); len(logs) > 0 {
+						rep, _ := os.ReadFile(logs[0])
+						txt := string(rep)
+						if len(txt) > 6000 {
+							txt = txt[:6000] + "\n..."
+						}
+						mu.Lock()
+						res.crashes = append(res.crashes, Failure{Prop: s.Name[:3], Kind: "race", Symptom: "data-race:" + raceSite(txt), Sub: s.Name, Detail: txt})
+						mu.Unlock()
+						for _, l := range logs {
+							os.Remove(l)
+						}
+					}
+				}
 				if err == nil && rerr == nil {
 					r := &Report{}
 					if jerr := json.Unmarshal(b, r); jerr == nil {
@@ -361,6 +376,21 @@ func runSub(build, tmp string, s plan.Sub, tier string, seed int64) *subResult {
 	}
 	wg.Wait()
 	return res
+}
+
+// raceSite extracts the first engine function named in a race report.
+func raceSite(report string) string {
+	for _, ln := range strings.Split(report, "\n") {
+		ln = strings.TrimSpace(ln)
+		if strings.HasPrefix(ln, "github.com/thanos-community/promql-engine/") {
+			fn := strings.TrimPrefix(ln, "github.com/thanos-community/promql-engine/")
+			if i := strings.LastIndex(fn, "("); i > 0 {
+				fn = fn[:i]
+			}
+			return fn
+		}
+	}
+	return "?"
 }
 
 func jsonOrNull(b []byte) []byte {
